@@ -785,9 +785,10 @@ def r_conv_pair(ctx: RuleCtx, col: Collector):
     rk, sk = (rcall.args[1] if len(rcall.args) > 1 else None), (scall.args[1] if len(scall.args) > 1 else None)
     construct = f"FilterConv: {rname}(mode={U(rmode) if rmode is not None else 'default'}) / {sname}(mode={U(smode) if smode is not None else 'default'})"
     problems = []
-    if {rname, sname} != {"convolve", "correlate"}:
-        problems.append(f"response uses {rname} and sensitivity uses {sname}: the adjoint of a convolution is a correlation "
-                        f"(they differ for kernels that are not point-symmetric)")
+    if (rname, sname) != ("convolve", "correlate"):
+        problems.append(f"response uses {rname} and sensitivity uses {sname}: the filter is defined as the *convolution* of "
+                        f"the kernel with the padded field and its adjoint is the correlation with the same kernel (the two "
+                        f"differ for kernels that are not point-symmetric)")
     rm = rmode.value if isinstance(rmode, ast.Constant) else None
     sm = smode.value if isinstance(smode, ast.Constant) else None
     if not ((rm, sm) in (("valid", "full"), ("full", "valid"), ("same", "same"))):
